@@ -197,21 +197,7 @@ def symenc(rep, prog):
                       'both directions must use the same cipher construction, CFB mode and an all-zero IV of block_size // 8 octets by default',
                       where=(fe if kind == 'encryptor' else fd).where, expected=exp.replace(Cc, 'CIPHER'),
                       found=[g.replace(Cc, 'CIPHER') for g in got], scenario='iv %s' % ('given' if ivgiven else 'default'))
-    # cipher table: key sizes and classes (RFC 4880 9.2)
-    ci = prog.cls('pgpy.constants', 'SymmetricKeyAlgorithm')
-    mem = ci.enum_members()
-    want_ids = {'Plaintext': 0, 'IDEA': 1, 'TripleDES': 2, 'CAST5': 3, 'Blowfish': 4, 'AES128': 7, 'AES192': 8, 'AES256': 9,
-                'Twofish256': 10, 'Camellia128': 11, 'Camellia192': 12, 'Camellia256': 13}
-    bad = {k: (mem.get(k), v) for k, v in want_ids.items() if mem.get(k) != v}
-    rep.check(not bad, 'C03.4', 'SymmetricKeyAlgorithm', 'ids %s' % bad, 'cipher ids must be the RFC 4880 9.2 / RFC 5581 values', where=ci.where,
-              found=bad)
-    from sa import tables
-    ks = tables.table(ci.methods['key_size'].node)
-    want_ks = {'IDEA': 128, 'TripleDES': 192, 'CAST5': 128, 'Blowfish': 128, 'AES128': 128, 'AES192': 192, 'AES256': 256,
-               'Twofish256': 256, 'Camellia128': 128, 'Camellia192': 192, 'Camellia256': 256}
-    got = {k.split('.')[-1]: int(v) for k, v in ks.items()}
-    rep.check(got == want_ks, 'C03.4', 'SymmetricKeyAlgorithm.key_size', 'key sizes', 'cipher key sizes must be the RFC values',
-              where=ci.methods['key_size'].where, expected=want_ks, found=got)
+    families.check_cipher_tables(rep, prog, 'C03.4')
 
 
 def ecdh(rep, prog):
